@@ -71,6 +71,9 @@ def unionRef64 (fuel : Nat) (a b : Rp) : M D Rp := do
 /-- what `Set64::hash` feeds the hasher: the sorted encoded members -/
 def hashInput (r : Rp) : List Nat := ((elems c r).toArray.qsort (· < ·)).toList
 
+/-- `Debug`: the type name and the `Vec` of what `iter()` yields (`write!(f, "SetU64 {:?}", self.iter().collect::<Vec<_>>())`) -/
+def debugStr (name : String) (r : Rp) : String := name ++ " " ++ toString (elems c r)
+
 /-- the tagged word of an inline / empty representation -/
 def wordOf : Rp → Nat
   | .empty => 0
